@@ -275,6 +275,9 @@ impl Directive {
                         } else {
                             bail!("unknown device {} in {}", value, point,)
                         }
+                    } else {
+                        // a number, a string or an expression names no device
+                        bail!("wrong format for .device, expected a device name in {}", point,);
                     }
                 } else {
                     bail!("wrong format for .device, expected: {} in {}", opts, point,);
